@@ -1,5 +1,6 @@
 import Mkdb.Proofs.NoPanicExec
 import Mkdb.Proofs.SpecRefineB
+import Mkdb.Proofs.SessionInv9
 /-!
 # C18 — no statement can crash the engine (SELECT evaluation)
 
@@ -74,3 +75,105 @@ theorem C18_dml_ddl_total (db : Engine.DB) (order : List Nat) (pt sch : Levels)
   evalStmt_total db order pt sch tbls sdb h st hnames hroom
 
 end Mkdb.Store
+
+namespace Mkdb.Store
+open Mkdb.Tree Mkdb.Page Mkdb.Tuple Mkdb.Generated
+
+/-- **C18.every_statement_keeps_the_database_invariant** (what makes `C18_dml_ddl_never_crash` hold for the
+NEXT statement too, whatever the outcome of this one).  `DbInv db sdb pt sch tbls` (Proofs/SessionInv3):
+the store abstracts to the plain database `sdb` with the catalog trees `pt`, `sch`, `tbls`; `sys_schema`
+has no stale rows; the cache is filed; every record of the log is applied and behind the two counters;
+every clean page is in the data file.  For every CREATE TABLE / INSERT / UPDATE / DELETE the parser can
+produce the engine model returns `.ok` or `.err` - never a panic, an unmodelled path, exhausted fuel -
+and the database it returns satisfies `DbInv` again for SOME plain database: the plain model's result
+if the statement is accepted, the same plain database if it is refused before a change, the plain
+database with the applied prefix if a multi-row INSERT / UPDATE is refused at a later row (the known
+finding of C14 - the relation survives it).  Side conditions, per statement: `StmtNames` (the two
+catalog tables are not addressed by name), `StmtRoomT` (INSERT literals that fit their Go types and the
+size room - 64-level fuel, offsets below 2^63 - for INSERT and CREATE TABLE), `StmtLits` (UPDATE SET
+literals that fit their Go types). -/
+theorem C18_every_statement_keeps_the_database_invariant (db : Engine.DB) (order : List Nat) (sdb : Spec.SDB)
+    (pt sch : Levels) (tbls : List (Bytes × Levels)) (h : DbInv db sdb pt sch tbls) (st : Sql.Stmt)
+    (hnames : StmtNames pt tbls st) (hroom : StmtRoomT db pt sch tbls st) (hlits : StmtLits st) :
+    ∃ db', (evalStmt db order st = .ok () db' ∨ ∃ e, evalStmt db order st = .err e db') ∧
+      ∃ sdb' pt' sch' tbls', DbInv db' sdb' pt' sch' tbls' :=
+  evalStmt_keeps_inv db order sdb pt sch tbls h st hnames hroom hlits
+
+/-- non-vacuity: the database `CREATE DATABASE` leaves satisfies the invariant, and `CREATE TABLE t (a INT)`
+meets the side conditions on it -/
+example : DbInv newDB [] ptNew schNew [] ∧ StmtNames ptNew [] (.createTable tname acols) ∧
+    StmtRoomT newDB ptNew schNew [] (.createTable tname acols) ∧ StmtLits (.createTable tname acols) :=
+  ⟨(ckpt_newDB.dbFlushed noStale_new).inv, fun h => absurd h tname_ne_sys.1,
+    ⟨room_create_t.2.2.1, room_create_t.2.2.2.1, room_create_t.2.2.2.2.1, room_create_t.2.2.2.2.2.1,
+      room_create_t.2.2.2.2.2.2⟩, trivial⟩
+
+end Mkdb.Store
+
+namespace Mkdb.Session
+open Mkdb.Engine Mkdb.Store Mkdb.Sql
+
+/-- **C18.session_statement_never_crashes** (the session states: no USE yet, a refused USE, a refused
+CREATE DATABASE, a selected database).  `SessInv s` (Proofs/SessionInv6): every database of the session
+satisfies `DbInv` for some plain database, every database other than the selected one is closed (flushed:
+nothing dirty, header and every page in the data file), the selected name - if any - is a database of
+the session, names are distinct.  From such a session EVERY statement - CREATE DATABASE, USE, SHOW
+DATABASES, SELECT, CREATE TABLE, INSERT, UPDATE, DELETE; valid or not; with or without a selected
+database; naming a database that exists or not - returns a result or an error value, never `Out.panic`
+(which is how the model shows a crash: a selected database that is not in the list, a statement
+evaluator that panics, runs an unmodelled path or out of fuel, a CREATE DATABASE or close that fails),
+and leaves a session that satisfies the invariant again.  `StmtSide s st`: the side conditions of
+`C18_every_statement_keeps_the_database_invariant` for the selected database (none for the statements
+not routed to it, none when nothing is selected).  The SELECT evaluator itself is
+`C18_no_panic_partial` / `C18_sort_safe` (the session model does not evaluate queries). -/
+theorem C18_session_statement_never_crashes (s : Sess) (h : SessInv s) (st : Sql.Stmt) (hside : StmtSide s st) :
+    (exec s st).2 ≠ Out.panic ∧ SessInv (exec s st).1 := by
+  obtain ⟨w, hw⟩ := h
+  obtain ⟨w', h1, h2, _⟩ := exec_sessAbs hw st hside
+  exact ⟨h2, w', h1⟩
+
+/-- **C18.session_never_crashes**: run ANY list of statements from the empty session (no database
+exists, none is selected), going on after every error value.  If each statement meets the side
+conditions in the state it is run in (`SessOK`), no step returns `Out.panic` - in particular not with no
+database selected (`C17_no_database_selected`: the error `noDbSelected`), not after a refused USE
+(`C17_use_missing`, `C17_invalid_name_refused`), not after a refused CREATE DATABASE
+(`C17_create_existing`) - and the final session satisfies the invariant. -/
+theorem C18_session_never_crashes (sts : List Sql.Stmt) (hok : SessOK {} sts) :
+    (∀ o ∈ (runAll {} sts).2, o ≠ Out.panic) ∧ SessInv (runAll {} sts).1 := by
+  obtain ⟨hfin, houts⟩ := runAll_sessAbs sts {} (fun _ => []) (sessAbs_empty _) hok
+  exact ⟨houts, hfin⟩
+
+/-- **C18.plain_histories_meet_the_side_conditions** (non-vacuity of `SessOK` beyond single examples):
+every history of CREATE DATABASE, USE, SHOW DATABASES, SELECT, DELETE and UPDATE statements - the last
+two on any table name other than `sys_pages` / `sys_schema`, UPDATE with SET literals a Go program can
+hold - meets the side conditions from EVERY session state.  So no such history, of any length, over any
+number of databases, makes the session model crash. -/
+theorem C18_plain_histories_never_crash (sts : List Sql.Stmt) (h : ∀ st ∈ sts, Plain st) :
+    (∀ o ∈ (runAll {} sts).2, o ≠ Out.panic) ∧ SessInv (runAll {} sts).1 :=
+  C18_session_never_crashes sts (sessOK_plain sts {} h)
+
+/-- non-vacuity: a history with a statement before any USE, a USE of a missing database, CREATE DATABASE
+twice, an invalid name, DELETE / UPDATE of a table that does not exist -/
+example : ∀ st ∈ [Stmt.delete tname none, .use [120], .createDatabase [100], .createDatabase [100],
+    .createDatabase [97, 47, 98], .use [100], .use [120], .delete tname none,
+    .update tname [([97], .lit (.int 7))] none, .showDatabases], Plain st := by
+  intro st hst
+  simp only [List.mem_cons, List.not_mem_nil, or_false] at hst
+  rcases hst with rfl | rfl | rfl | rfl | rfl | rfl | rfl | rfl | rfl | rfl
+  all_goals first
+    | exact trivial
+    | exact tname_ne_sys
+    | refine ⟨tname_ne_sys, ?_⟩
+      intro p hp l hl
+      simp only [List.mem_singleton] at hp
+      subst hp
+      simp only [VExpr.lit.injEq] at hl
+      subst hl
+      exact ⟨by decide, by decide⟩
+
+/-- non-vacuity with a table and rows: in the session whose selected database is the one
+`CREATE DATABASE; CREATE TABLE t (a INT)` produces (computed by the model), the invariant holds and
+`INSERT INTO t VALUES (5), (6)` meets the side conditions -/
+example : SessInv sessT ∧ StmtSide sessT (.insert tname [] [[.int 5], [.int 6]]) :=
+  ⟨⟨_, sessAbs_sessT⟩, stmtSide_sessT⟩
+
+end Mkdb.Session
